@@ -281,3 +281,94 @@ func VerifC06_AdjustStep() {
 	st2 := e.store()
 	verifAssert(st2.Has(types.KeyActiveFarmPool(pool.EndHeight, e.poolID)) && (pool.EndHeight == end || !st2.Has(types.KeyActiveFarmPool(end, e.poolID))), "F4 the pool is queued exactly at its end height")
 }
+
+// C06/C13 destroy: the creator destroys an editable pool that has not ended, at any height up to its end
+// height.  The elapsed blocks are released first, the whole remaining budget goes back to the creator
+// exactly once, the pool is ended NOW and leaves the end-height queue entirely (so the end-block handler
+// never processes it again); anybody else, a non-editable or an already ended pool is refused without
+// effect; stakes are untouched.
+func VerifC06_DestroyStep() {
+	verifExpect("destroyed", "refused")
+	e := newFmEnv(10)
+	zero, one := big.NewInt(0), big.NewInt(1)
+	w := verifPow2(40)
+	end := int64(40)
+	h := int64(20 + 10*verifChoice("when", 4)) // 20, 30 before the end; 40 at the end height; 50 after it
+	gap := int64(verifChoice("gap", 3))
+	last := h - gap
+	if last > end {
+		last = end
+	}
+	locked := verifIntIn("locked", zero, w)
+	rpb := verifIntIn("rpb", one, w)
+	remaining := verifIntIn("remaining", zero, verifPow2(60))
+	released0 := verifIntIn("releasedBefore", zero, w)
+	total := remaining.Add(released0)
+	ended := verifChoice("alreadyEnded", 2) == 1 // the pool was ended (destroyed or expired) earlier
+	if ended {
+		end = last
+		verifAssume(remaining.IsZero())
+	} else {
+		verifAssume(h <= 40 || true)
+		// F5: the remaining reward covers every block until the end height at the current rate
+		verifAssume(remaining.BigInt().Cmp(verifMul(rpb.BigInt(), big.NewInt(end-last))) >= 0)
+	}
+	rps := verifDec("rps", zero, verifMul(verifPow2(40), verifPow10(18)))
+	st := fmState{locked: locked, total: total, remaining: remaining, rpb: rpb, rps: rps, start: 5, last: last, end: end}
+	pool0 := e.seedPool(st)
+	if ended {
+		e.k.DequeueActivePool(e.ctx, e.poolID, end) // F4: an ended pool has no queue entry
+	}
+	if verifChoice("editable", 2) == 0 {
+		pool0.Editable = false
+		e.k.SetPool(e.ctx, pool0)
+	}
+	e.bank.fund(vModuleAddr(types.ModuleName), fmLpt, locked)
+	e.bank.fund(vModuleAddr(types.ModuleName), fmReward, remaining)
+	actor := e.creator
+	if verifChoice("actor", 2) == 1 {
+		actor = e.a
+	}
+	ctx := e.at(h)
+	col0, modR0, modL0, cr0 := e.collector(), e.mod(fmReward), e.mod(fmLpt), e.bal(e.creator, fmReward)
+	err, _ := e.verifDeliver(func() error {
+		_, err := NewMsgServerImpl(e.k).DestroyPool(ctx, &types.MsgDestroyPool{PoolId: e.poolID, Creator: actor.String()})
+		return err
+	})
+	pool, _ := e.k.GetPool(ctx, e.poolID)
+	rule := e.k.GetRewardRules(ctx, e.poolID)[0]
+	queuedAnywhere := false
+	it := e.store().Iterator(nil, nil)
+	for ; it.Valid(); it.Next() {
+		for _, hh := range []int64{last, 20, 30, 40, 50, end} {
+			if string(it.Key()) == string(types.KeyActiveFarmPool(hh, e.poolID)) {
+				queuedAnywhere = true
+			}
+		}
+	}
+	it.Close()
+	if err != nil {
+		verifCover("refused")
+		verifAssert(rule.RemainingReward.Equal(remaining) && pool.EndHeight == end && pool.LastHeightDistrRewards == last &&
+			e.collector().Cmp(col0) == 0 && e.mod(fmReward).Cmp(modR0) == 0 && e.bal(e.creator, fmReward).Cmp(cr0) == 0, "a refused destroy changes nothing")
+		verifAssert(queuedAnywhere == !ended, "a refused destroy leaves the queue entry as it was")
+		verifAssert(!(actor.Equals(e.creator) && pool0.Editable && !ended && h < end && remaining.IsPositive()), "the creator can destroy an editable running pool that still has a budget")
+		return
+	}
+	verifCover("destroyed")
+	verifAssert(actor.Equals(e.creator), "only the pool creator destroys a pool")
+	verifAssert(pool0.Editable, "only an editable pool can be destroyed")
+	verifAssert(!ended && h <= end, "a pool that has ended cannot be destroyed again (its budget is returned exactly once)")
+	released := big.NewInt(0)
+	if h > last && locked.IsPositive() {
+		released = verifMul(rpb.BigInt(), big.NewInt(h-last))
+	}
+	refund := verifSub(remaining.BigInt(), released)
+	verifAssert(verifSub(e.collector(), col0).Cmp(released) == 0, "the elapsed blocks are released before the pool is destroyed")
+	verifAssert(verifSub(e.bal(e.creator, fmReward), cr0).Cmp(refund) == 0, "the creator gets back exactly the remaining budget")
+	verifAssert(verifSub(modR0, e.mod(fmReward)).Cmp(remaining.BigInt()) == 0, "the farm escrow gives up the whole remaining budget")
+	verifAssert(rule.RemainingReward.IsZero() && rule.TotalReward.Equal(total), "budget = released + refunded; nothing remains")
+	verifAssert(e.mod(fmLpt).Cmp(modL0) == 0 && pool.TotalLptLocked.Amount.Equal(locked), "stakes are untouched by a destroy")
+	verifAssert(pool.EndHeight == h && pool.LastHeightDistrRewards == h, "the pool ends now")
+	verifAssert(!queuedAnywhere, "F4 a destroyed pool leaves the end-height queue (it is never processed again)")
+}
